@@ -600,6 +600,10 @@ class CaseRunner:
                         shapes[kx] = ('F', [])
                 tabs['shape'] = shapes
                 tabs['manifest'] = manifest
+                if views['final']:
+                    # the plain manifestation of the same program: what every mode must be a view of
+                    prc, pout, perr = self.plain.run(sargs, 'local __v = (%s\n); __v' % views['final'][0], c['env'])
+                    views['plain'] = json.loads(pout.decode('utf-8'), strict=False) if prc == 0 else 'FAIL'
         return tabs, stdin, views
 
     @staticmethod
@@ -762,16 +766,24 @@ def oracle(runner, c, obs, tabs, views, good):
                 return b''.join(b'---\n' + i + b'\n' for i in items) + (b'...' + nl if items else b'')
             m = tabs['manifest'].get(v)
             return None if m is None else m + nl
-        if c['m']:
+        plain = views.get('plain', 'FAIL')
+        if plain == 'FAIL':
+            out.append(('mode-succeeds-plain-fails', 'mode %s succeeded on a program whose plain manifestation fails' % mode_tag(c)))
+        elif c['m']:
             md = runner.mdir(c)
-            if sh[0] != 'O':
+            if sh[0] != 'O' or not isinstance(plain, dict):
                 out.append(('multi-non-object-exit0', 'multi mode succeeded on a non-object'))
             else:
+                # one file per field of the plain JSON manifestation (= the visible fields), in that order
+                by_name = {n.decode('utf-8'): v for n, v in sh[1]}
+                if list(plain.keys()) != [n.decode('utf-8') for n, _ in sh[1]]:
+                    out.append(('visible-fields-disagree', 'std.objectFields gives %r, the plain manifestation has %r'
+                                % ([n.decode('utf-8') for n, _ in sh[1]], list(plain.keys()))))
                 want_files = {}
                 listing = b''
-                for n, v in sh[1]:
-                    p = (md if md.endswith('/') else md + '/') + n.decode('utf-8')
-                    want_files[os.path.normpath(p)] = repr_of(v)
+                for name in plain.keys():
+                    p = (md if md.endswith('/') else md + '/') + name
+                    want_files[os.path.normpath(p)] = repr_of(by_name[name]) if name in by_name else None
                     listing += p.encode('utf-8') + b'\n'
                 if text != listing:
                     out.append(('multi-listing', 'multi listing %r differs from the visible fields %r' % (text, listing)))
@@ -782,6 +794,12 @@ def oracle(runner, c, obs, tabs, views, good):
                     out.append(('multi-files', 'multi files %r differ from the visible fields\' views %r' % (sorted(new), sorted(want_files))))
         else:
             want = repr_of(vid)
+            if c['S'] and not (isinstance(plain, str) and text == plain.encode('utf-8') + nl):
+                out.append(('mode-view-string-vs-plain', 'mode %s printed %r, the plain manifestation is %r' % (mode_tag(c), text[:80], str(plain)[:80])))
+            if c['y'] and not c['S'] and not (isinstance(plain, list) and text.count(b'---\n') >= len(plain)
+                                              and (sh[0] == 'A' and len(sh[1]) == len(plain))):
+                out.append(('mode-view-yaml-vs-plain', 'mode %s printed %d documents, the plain manifestation has %s elements'
+                            % (mode_tag(c), text.count(b'---\n'), len(plain) if isinstance(plain, list) else 'no')))
             if want is None:
                 out.append(('mode-type-mismatch-exit0', 'mode %s succeeded on a value of the wrong type' % mode_tag(c)))
             elif text != want:
@@ -812,7 +830,16 @@ def gen_programs(rng, tier):
                '{a: [1], b: [], c: ["q"]}', '{a: 1, h:: 2, c: self.h}', '{b: 1, a: 2, "Z": 3, "é": 4}',
                '{a: 1, b: function(x) x}', '{a: 1, b: error "boom"}', '{assert false : "no", a: 1}',
                '{[k]: k + "!" for k in ["p", "q"]}', '{"sub/x": 1, a: 2}', '{"": 1}', '{a: "x"} + {a+: "y", b: "z"}']
-    for o in (objects if tier == 'thorough' else objects[:3] + rng.sample(objects[3:], 3)):
+    vis = ['{a: 1, b:: 2, c::: 3}', '{a:: "hid"} + {a::: "shown", b: "t"}',
+           '{a: 1, b: 2} + {a:: 3}', '{a:: 1, b::: [2], c: [3]} + {a: 10, b: [20], c: [30]}', '{a::: 1} + {a:: 2} + {a: 3, z::: null}',
+           'local base = {x:: "hx", y: "y"}; base + {x::: super.x + "!", z::: {deep::: [1], hid:: 2}}',
+           '{["k" + std.toString(i)]::: [i, {n::: i, h:: 0}] for i in [1, 2]}', '{["c" + "1"]::: "v", [if true then "d"]: "w", [null]: "x", e:: "y"}',
+           '{a::: ["p"], b: [], c:: ["never"]}', '{o::: {i::: {j::: 1, k:: 2}}, p: {q:: 3}}']
+    if tier == 'thorough':
+        picked = objects + vis
+    else:
+        picked = objects[:3] + rng.sample(objects[3:], 2) + vis[:2] + rng.sample(vis[2:], 2)
+    for o in picked:
         progs.append(('object', o, None))
     others = ['1', 'null', 'true', '1.5e300', 'error "top"', '1 +', '{a: 1', 'local x = y; 1', 'std.extVar("nope")', '"unterminated']
     for o in (others if tier == 'thorough' else others[:1] + rng.sample(others[1:], 3)):
@@ -842,7 +869,12 @@ def gen_cases(rng, tier):
         if tier != 'thorough':
             keep = [x for x in combos if not (x[0] and x[1])]
             usage = [x for x in combos if x[0] and x[1]]
-            combos = rng.sample(keep, 6 if tag in ('string', 'array', 'object') else 3) + rng.sample(usage, 1 if i % 6 == 0 else 0)
+            if tag == 'object':
+                # objects are what -m is about: half of their combinations use it
+                combos = rng.sample([x for x in keep if x[3]], 3) + rng.sample([x for x in keep if not x[3]], 2)
+            else:
+                combos = rng.sample(keep, 6 if tag in ('string', 'array') else 3)
+            combos += rng.sample(usage, 1 if i % 6 == 0 else 0)
         s_prog = rng.choice([None, None, 200, 1000])
         for j, (S, y, ntn, m, o) in enumerate(combos):
             ins = inkinds if (tier == 'thorough' and j % 5 == 0) else [inkinds[(i + j) % 3]]
